@@ -7,9 +7,9 @@ are NOT generated (false-alarm hazard).
 """
 
 # variant classes
-NAME_CASE, OWS, EMPTY, REORDER, QUOTE, UNKNOWN, VALUE_CASE, MULTI_SPACE, TRAILING_SPACE = (
+NAME_CASE, OWS, EMPTY, REORDER, QUOTE, UNKNOWN, VALUE_CASE, MULTI_SPACE, TRAILING_SPACE, OVERRIDDEN = (
     'name-case', 'ows', 'empty-element', 'reorder', 'quote', 'unknown-directive', 'value-case', 'multi-space',
-    'trailing-space')
+    'trailing-space', 'overridden-attribute')
 
 SPF_NAMES = ('all', 'include', 'a', 'mx', 'ptr', 'ip4', 'ip6', 'exists', 'redirect', 'exp')
 
@@ -33,7 +33,9 @@ TYPES = {
     # RFC 6265 5.2: attribute names case-insensitive, OWS around ';', unknown attributes ignored, order free;
     # the name=value pair stays first and untouched
     'cryptoparser.httpx.header:HttpHeaderFieldValueSetCookie': dict(
-        sep=';', variants=(NAME_CASE, OWS, REORDER, UNKNOWN, EMPTY), quotable=(), keep_first=1),   # 5.2 step 3-4: empty attributes are skipped
+        sep=';', variants=(NAME_CASE, OWS, REORDER, UNKNOWN, EMPTY, OVERRIDDEN), quotable=(), keep_first=1),   # 5.2 step 3-4: empty attributes are skipped;
+    # 5.3 steps 3-7 ("the last attribute in the cookie-attribute-list with an attribute-name of ..."): an earlier attribute
+    # of the same name is overridden
     # RFC 9110 8.3.1: type/subtype and parameter names case-insensitive, OWS around ';'; media type stays first
     'cryptoparser.httpx.header:HttpHeaderFieldValueContentType': dict(
         sep=';', variants=(NAME_CASE, OWS, VALUE_CASE), quotable=(), keep_first=1, first_case=True),
@@ -98,6 +100,18 @@ EXTRA_VALUES = {
     'cryptoparser.dnsrec.txt:DnsRecordTxtValueTlsRpt': (
         'v=TLSRPTv1; rua=mailto:a@example.com', 'v=TLSRPTv1; rua=https://example.com/report',
         'v=TLSRPTv1; rua=mailto:a@example.com?subject=TLS%20report', 'v=TLSRPTv1; rua=https://example.com/report?site=a#frag'),
+}
+
+
+# accepted inputs at the edges of a grammar that the harvested corpus does not hold (tools/mkextra.py files them in the corpus,
+# so every corpus-driven check starts from them on every seed instead of waiting for a mutation to hit them)
+EDGE_INPUTS = {
+    'cryptoparser.ssh.subprotocol:SshProtocolMessage': (
+        b'SSH-2.0-OpenSSH_8.9 \r\n',            # comment present but empty
+        b'SSH-2.0-OpenSSH_8.9 \n',              # the same, bare LF
+        b'SSH-2.0-x  \r\n',                     # comment of one blank
+        b'SSH-1.99-Cisco-1.25\n', b'SSH-2.0-dropbear_2020.81\r\n', b'SSH-2.0-OpenSSH_8.9p1 Ubuntu-3ubuntu0.1\r\n',
+        b'SSH-2.0-OpenSSH_for_Windows_8.1 some comment with blanks\r\n'),
 }
 
 
@@ -181,6 +195,15 @@ def variants(name, canon, rng, count, only=None):  # pylint: disable=too-many-br
                     used.add(QUOTE)
                 new_tail.append(part)
             tail = new_tail
+        if OVERRIDDEN in chosen and REORDER not in used:
+            earlier = {'path': 'Path=/overridden', 'domain': 'Domain=overridden.example', 'max-age': 'Max-Age=7',
+                       'samesite': 'SameSite=Lax', 'expires': 'Expires=Wed, 21 Oct 2015 07:28:00 GMT'}
+            for position, part in enumerate(tail):
+                attribute = part[:_name_end(part, kv)].lower()
+                if attribute in earlier and earlier[attribute].lower() != part.lower():
+                    tail.insert(rng.randrange(position + 1), earlier[attribute])
+                    used.add(OVERRIDDEN)
+                    break
         if UNKNOWN in chosen:
             extra = rng.choice(['x-unknown=1', 'x-verif-ext', 'zz-ext=abc'] if sep != ' ' else ['x-unknown=1'])
             if name.endswith(('Dmarc', 'MtaSts', 'TlsRpt')):
